@@ -38,6 +38,20 @@ def gen_date_cases(ctx):
         enc = calgen.enc_named(nm, 4)
         y = rng.randint(1970, 2199)
         cases.append((enc, 32, [calgen.dn(y, rng.randint(1, 12), rng.randint(1, 28)), rng.randrange(5)]))
+    # EVERY February 1970-2200 as the landing month of a shift whose roll day the month does not have (29/30/31, EoM, or an
+    # unspecified roll from the 29th-31st), and a sample of the other short months: the result must be a date, never an abort
+    enc = [0] + calgen.enc_cal([5, 6], [])
+    for y in range(1970, 2201):
+        k = rng.choice([1, 13, -11, 25]) if 1971 < y < 2200 else 1
+        sy, sm = y + (2 - 1 - k) // 12, (2 - 1 - k) % 12 + 1
+        for rk, rd, sd in ((1, rng.choice([29, 30, 31]), rng.randint(1, 28)), (2, 0, rng.randint(1, 28)), (0, 0, rng.choice([29, 30, 31]))):
+            if sy < 1970:
+                continue
+            sd = min(sd, calgen.month_end(sy, sm) - calgen.dn(sy, sm, 1) + 1)
+            cases.append((enc, 14, [calgen.dn(sy, sm, sd), k, rng.randrange(5), rk, rd, rng.randrange(2)]))
+        m = rng.choice([4, 6, 9, 11])
+        cases.append((enc, 14, [calgen.dn(y, m - 1, 31 if m - 1 in (3, 5, 8, 10) else 30), 1, rng.randrange(5), rng.choice([0, 1]), 31, 0]))
+    ctx.count("dates: add_months into every February 1970-2200", 231 * 3)
     # roll days 0..33 exhaustively on one calendar
     enc = [0] + calgen.enc_cal([5, 6], [calgen.dn(2024, 3, 29)])
     for rd in range(0, 34):
